@@ -30,12 +30,18 @@ def needs_from_readme(txt):
 
 
 def main():
-    ids = sys.argv[1:] or sorted({os.path.basename(d)[:3] for d in glob.glob(SRC + "/C??-out")})
+    rnd = ""
+    args = sys.argv[1:]
+    if args and args[0].startswith("--round="):
+        rnd = args[0].split("=")[1]
+        args = args[1:]
+    suffix = "-out" + (rnd if rnd and rnd != "1" else "")
+    ids = args or sorted({os.path.basename(d)[:3] for d in glob.glob(SRC + "/C??" + suffix)})
     kept = 0
     for pid in ids:
         wt = os.path.join(SRC, pid)
         base = subprocess.run(["git", "-C", wt, "rev-parse", "--short", "HEAD"], capture_output=True, text=True).stdout.strip()
-        for m in sorted(glob.glob("%s/%s-out/m*" % (SRC, pid))):
+        for m in sorted(glob.glob("%s/%s%s/m*" % (SRC, pid, suffix))):
             k = os.path.basename(m)
             log = os.path.join(m, "confirm.log")
             if not os.path.exists(log) or not os.path.exists(os.path.join(m, "patch.diff")):
@@ -44,7 +50,7 @@ def main():
             if not ok:
                 print("NOT CONFIRMED", pid, k)
                 continue
-            dst = os.path.join(VERIF, "seeded", "%s-%s" % (pid, k))
+            dst = os.path.join(VERIF, "seeded", "%s-%s%s" % (pid, ("r%s" % rnd) if rnd and rnd != "1" else "", k))
             os.makedirs(dst, exist_ok=True)
             for f in os.listdir(m):
                 p = os.path.join(m, f)
@@ -65,7 +71,7 @@ def main():
             meta_p = os.path.join(dst, "meta.json")
             old = json.load(open(meta_p)) if os.path.exists(meta_p) else {}
             meta = {
-                "property": pid, "seed": k, "base_commit": base,
+                "property": pid, "seed": k, "round": int(rnd or 1), "base_commit": base,
                 "origin": "independent sub-agent given only the property text and a scratch worktree (tools/seed_prompt.py); nothing from /verif",
                 "needs_to_manifest": needs_from_readme(readme),
                 "confirmed_by": {"what_ran": "tools/seedrun.sh: clean checkout -> make -j8 it, make -C tests test, demo.sh <tree>; git apply patch.diff -> same three steps",
